@@ -224,6 +224,11 @@ func (c *Contracts) loadForm(file string, f *SX) error {
 		if d.Body == nil {
 			return errAt(file, f, "%s %s has no body", h, d.Name)
 		}
+		var ierr error
+		d.Body = c.expandInst(file, d, d.Body, &ierr)
+		if ierr != nil {
+			return ierr
+		}
 		return c.addDecl(d)
 	case "func", "extern", "iface", "functype":
 		return c.loadContract(file, f)
@@ -386,4 +391,40 @@ func (ct *Contract) clauseProps(cl *Clause) []string {
 		return cl.Props
 	}
 	return ct.Props
+}
+
+// expandInst replaces (inst lemma e1 e2 ...) by the body of that (already declared, universally
+// quantified) lemma with its bound variables set to the given terms. The lemma is added to Needs,
+// so it is proved in every run that uses the result.
+func (c *Contracts) expandInst(file string, d *Decl, x *SX, err *error) *SX {
+	if x.IsAtom() {
+		return x
+	}
+	if x.Head() == "inst" {
+		name := x.List[1].Atom
+		l := c.DeclBy["lemma:"+name]
+		if l == nil {
+			*err = errAt(file, x, "inst: unknown lemma %q (must be declared earlier)", name)
+			return x
+		}
+		if l.Body.Head() != "forall" || len(l.Body.List[1].List) != len(x.List)-2 {
+			*err = errAt(file, x, "inst %s: lemma is not a forall over %d variables", name, len(x.List)-2)
+			return x
+		}
+		d.Needs = append(d.Needs, name)
+		var binds []*SX
+		for i, v := range l.Body.List[1].List {
+			binds = append(binds, &SX{List: []*SX{{Atom: v.List[0].Atom}, c.expandInst(file, d, x.List[2+i], err)}})
+		}
+		body := l.Body.List[2]
+		if body.Head() == "!" {
+			body = body.List[1]
+		}
+		return &SX{List: []*SX{{Atom: "let"}, {List: binds}, body}, Line: x.Line}
+	}
+	n := &SX{List: make([]*SX, len(x.List)), Line: x.Line}
+	for i, e := range x.List {
+		n.List[i] = c.expandInst(file, d, e, err)
+	}
+	return n
 }
